@@ -12,6 +12,7 @@ pub mod c07;
 pub mod c12;
 pub mod c18;
 pub mod c19;
+pub mod c20;
 pub mod c13;
 pub mod c14;
 pub mod c15;
@@ -31,6 +32,7 @@ pub fn lookup(id: &str) -> Option<PropDef> {
         "C07" => Some(("C07", c07::TITLE, c07::parts(), c07::RULE, c07::assumptions())),
         "C18" => Some(("C18", c18::TITLE, c18::parts(), c18::RULE, c18::assumptions())),
         "C19" => Some(("C19", c19::TITLE, c19::parts(), c19::RULE, c19::assumptions())),
+        "C20" => Some(("C20", c20::TITLE, c20::parts(), c20::RULE, c20::assumptions())),
         "C12" => Some(("C12", c12::TITLE, c12::parts(), c12::RULE, c12::assumptions())),
         "C13" => Some(("C13", c13::TITLE, c13::parts(), c13::RULE, c13::assumptions())),
         "C15" => Some(("C15", c15::TITLE, c15::parts(), c15::RULE, c15::assumptions())),
